@@ -51,7 +51,16 @@ def generate(R, tier, focus):
         nt = R.randint(1, 5)
         tests = [{'test': R.choice(testable), 'seed': R.choice((1, 7, R.randint(2, 10 ** 6))), 'obs': R.randrange(len(inner['obs']))}
                  for _ in range(nt)]
-    return {'engine': 'permsim', 'kind': kind, 'inner': inner, 'channel': channel, 'perm_seed': R.randint(0, 2 ** 31),
+    cart = inner['region']['kind'] == 'cart'
+    extra = {
+        # events channel: re-order the SAME catalog object in place after it was evaluated (per-object caches)
+        'same_object': channel == 'events' and R.random() < 0.4,
+        # gridded world delivered as a forecast file (cells in world order) instead of in memory
+        'delivery': 'file' if (kind == 'grid' and cart and R.random() < 0.3) else 'memory',
+        # observed catalog delivered through its JSON form (carries its region along)
+        'obs_via_json': kind == 'grid' and cart and R.random() < 0.2,
+    }
+    return {'engine': 'permsim', 'kind': kind, 'inner': inner, 'channel': channel, 'perm_seed': R.randint(0, 2 ** 31), **extra,
             'tests': tests, 'rng_state': R.randint(0, 2 ** 31 - 1), 'tz': R.choice(TZ_CHOICES)}
 
 
@@ -62,10 +71,14 @@ def permuted(scn):
     ch = scn['channel']
     info = {}
     if ch == 'events':
-        for o in w['obs']:
+        info['event_perm'] = {}
+        for oi, o in enumerate(w['obs']):
             if 'dup_of' in o:
                 continue
-            P.shuffle(o['events'])
+            idx = list(range(len(o['events'])))
+            P.shuffle(idx)
+            o['events'] = [o['events'][i] for i in idx]
+            info['event_perm'][oi] = idx
     elif ch == 'cells':
         n = gen.n_cells(w['region'])
         perm = list(range(n))
@@ -102,17 +115,59 @@ def _multiset_close(a, b):
     return models.close_seq(a, b, 1e-9, 1e-12)
 
 
-def run_grid(test, world, obs_events, seed, nsim):
+def write_world_dat(path, world):
+    dm = world['mags']['dm']
+    dh = world['region']['dh']
+    lines = []
+    for o, row in zip(world['region']['origins'], world['rates']):
+        for k, m0 in enumerate(world['mags']['edges']):
+            lines.append('%r %r %r %r 0.0 30.0 %r %r %r 1' % (o[0], gen.dec(o[0] + dh), o[1], gen.dec(o[1] + dh), m0,
+                                                            gen.dec(m0 + dm, 4), row[k]))
+    with open(path, 'w') as f:
+        f.write('\n'.join(lines) + '\n')
+
+
+def make_fc(world, env):
+    if env.get('delivery') == 'file':
+        import csep
+        env['n_files'] = env.get('n_files', 0) + 1
+        path = env['store'].path('world_%d.dat' % env['n_files'])
+        write_world_dat(path, world)
+        return csep.load_gridded_forecast(path, start_date=build.utc(world['start_ms']).replace(tzinfo=None),
+                                          end_date=build.utc(world['end_ms']).replace(tzinfo=None))
+    return build.make_gridded(world)
+
+
+def make_obs(events, fc, env):
+    cat = build.make_catalog(events, region=fc.region, name='obs')
+    if env.get('obs_via_json'):
+        import csep
+        env['n_files'] = env.get('n_files', 0) + 1
+        path = env['store'].path('obs_%d.json' % env['n_files'])
+        cat.write_json(path)
+        cat = csep.load_catalog(path)
+    return cat
+
+
+def run_grid(test, world, obs_events, seed, nsim, env=None, objs=None):
     from csep.core import poisson_evaluations as pe
     from csep.core import binomial_evaluations as be
-    fc = build.make_gridded(world)
-    cat = build.make_catalog(obs_events, region=fc.region, name='obs')
+    env = env or {}
+    if objs is not None and 'fc' in objs:
+        # same forecast and same catalog object as in the base run; the catalog was re-ordered in place
+        fc, cat = objs['fc'], objs['cat']
+    else:
+        fc = make_fc(world, env)
+        cat = make_obs(obs_events, fc, env)
+        if objs is not None:
+            objs['fc'], objs['cat'] = fc, cat
     if test == 'N':
         return pe.number_test(fc, cat)
     if test == 'NBD':
         return be.negative_binomial_number_test(fc, cat, float(numpy.sum(fc.data)) * 2.5 + 1.0)
     if test == 'T':
-        return pe.paired_t_test(fc, build.make_gridded(world, rates=world['bench'], name='bench'), cat)
+        bw = dict(world, rates=world['bench'])
+        return pe.paired_t_test(fc, make_fc(bw, env), cat)
     return rngsim.run_gridded_test(test, fc, cat, nsim, seed, None)
 
 
@@ -145,10 +200,19 @@ def _execute(scn, ctx, store, rng):
         # separate files for the two delivery orders
         wb = FcWorld(base, store, fname='base')
         wp = FcWorld(perm, store, fname='perm')
+    env = {'store': store, 'delivery': scn.get('delivery', 'memory'), 'obs_via_json': scn.get('obs_via_json', False)}
+    if env['delivery'] == 'file':
+        ctx.count('cfg:forecast_delivered_as_file')
+    if env['obs_via_json']:
+        ctx.count('cfg:observed_catalog_delivered_as_json')
+    same_object = scn.get('same_object') and ch == 'events' and scn['kind'] == 'grid'
+    if same_object:
+        ctx.count('cfg:same_catalog_object_reordered_in_place')
     for ti, t in enumerate(scn['tests']):
         test = t['test']
         ctx.count('test:' + test)
         outs = []
+        objs = {} if same_object else None
         for which, world in (('base', base), ('perm', perm)):
             rng.seed(scn['rng_state'] + ti)
             rng.mark(budget=rngsim.HARD_CAP)
@@ -161,7 +225,10 @@ def _execute(scn, ctx, store, rng):
                             rngsim.liveness_budget(test, world['rates'], int((fcn > 0).sum()), t['nsim']) >= 100000:
                         outs = None
                         break
-                r = call(run_grid, test, world, world['obs'][0]['events'], t['seed'], t['nsim'])
+                if objs is not None and which == 'perm' and 'cat' in objs:
+                    idx = info['event_perm'].get(0, [])
+                    objs['cat'].catalog = objs['cat'].catalog[numpy.array(idx, dtype=int)] if idx else objs['cat'].catalog
+                r = call(run_grid, test, world, world['obs'][0]['events'], t['seed'], t['nsim'], env, objs)
             else:
                 fw = wb if which == 'base' else wp
                 fc = fw.new_forecast()
